@@ -15,6 +15,7 @@ package main
 
 import (
 	"fmt"
+	"math"
 	"os"
 	"path/filepath"
 	"strings"
@@ -58,6 +59,7 @@ type xexpr struct {
 	c     *xexpr
 	args  []*xexpr
 	value float64
+	neg   bool // xNum: the literal is -value (s holds the digits of the absolute value)
 }
 
 var coqOpNames = []string{"UPos", "UNeg", "UCpl", "UNot", "UVoid", "UTypeof", "UDelete", "UPreDec", "UPreInc", "UPostDec", "UPostInc",
@@ -73,6 +75,11 @@ func (e *xexpr) coq() string {
 	case xId:
 		return "(EId " + CBytes([]byte(asciiIdent(e.s))) + ")"
 	case xNum:
+		if e.neg {
+			// abstraction of the model: a negative numeric literal is the unary-minus tree it is printed as
+			// (printNumber: "-" behind printSpaceBeforeOperator, "(-1)" at level >= LPrefix; "**" puts a number base at LCall)
+			return "(EUn UNeg (ENum " + CBytes([]byte(e.s)) + "))"
+		}
 		return "(ENum " + CBytes([]byte(e.s)) + ")"
 	case xRe:
 		return "(ERe " + CBytes([]byte(e.s)) + " " + CBytes([]byte(e.f)) + ")"
@@ -132,6 +139,9 @@ func (tb *treeBuilder) build(e *xexpr) js_ast.Expr {
 	case xId:
 		return js_ast.Expr{Data: &js_ast.EIdentifier{Ref: tb.ref(e.s)}}
 	case xNum:
+		if e.neg {
+			return js_ast.Expr{Data: &js_ast.ENumber{Value: math.Copysign(e.value, -1)}}
+		}
 		return js_ast.Expr{Data: &js_ast.ENumber{Value: e.value}}
 	case xRe:
 		return js_ast.Expr{Data: &js_ast.ERegExp{Value: "/" + e.s + "/" + e.f}}
@@ -196,7 +206,7 @@ func genNum(r *Rng) *xexpr {
 	for v >= 1000 && v%10 == 0 {
 		v++
 	}
-	return &xexpr{k: xNum, s: fmt.Sprint(v), value: float64(v)}
+	return &xexpr{k: xNum, s: fmt.Sprint(v), value: float64(v), neg: r.Chance(15)}
 }
 
 // "++/re/.x" is valid JavaScript, but the specification lexer of LexSpec.v
@@ -381,6 +391,23 @@ func gluingGrid() []*xexpr {
 		un(js_ast.UnOpPostInc, dot(nw(id("a")), "b")), un(js_ast.UnOpPreInc, dot(call(id("a")), "b")), un(js_ast.UnOpPreDec, idx(call(id("a")), id("b"))), un(js_ast.UnOpPostDec, idx(nw(id("a")), id("b"))),
 		bin(js_ast.BinOpAssign, dot(call(id("a")), "b"), nw(id("c"))), bin(js_ast.BinOpAssign, dot(nw(id("a")), "b"), call(id("c"))),
 		cond(nw(id("a")), nw(id("b")), nw(id("c"))), cond(call(id("a")), call(id("b")), call(id("c"))), idx(id("a"), nw(id("b"))), call(id("a"), nw(id("b")), nw(id("c"))))
+	// negative numeric literals (printed through printNumber, not through EUnary)
+	for _, n := range []string{"0", "1", "12", "999", "1234"} {
+		var v float64
+		fmt.Sscan(n, &v)
+		neg := &xexpr{k: xNum, s: n, value: v, neg: true}
+		pos := &xexpr{k: xNum, s: n, value: v}
+		out = append(out, neg, dot(neg, "e"), idx(neg, id("a")), call(neg), nw(neg), call(id("f"), neg, neg), nw(id("f"), neg), cond(neg, neg, neg),
+			bin(js_ast.BinOpPow, neg, id("a")), bin(js_ast.BinOpPow, pos, id("a")), bin(js_ast.BinOpPow, id("a"), neg), bin(js_ast.BinOpPow, neg, neg), bin(js_ast.BinOpPow, dot(neg, "e"), neg),
+			bin(js_ast.BinOpSub, id("a"), neg), bin(js_ast.BinOpSub, neg, neg), bin(js_ast.BinOpAdd, id("a"), neg), bin(js_ast.BinOpSubAssign, id("a"), neg), bin(js_ast.BinOpComma, neg, neg),
+			bin(js_ast.BinOpIn, neg, id("a")), bin(js_ast.BinOpIn, id("a"), neg), bin(js_ast.BinOpLt, id("a"), un(js_ast.UnOpNot, neg)), bin(js_ast.BinOpGt, un(js_ast.UnOpPostDec, id("a")), neg),
+			un(js_ast.UnOpPreDec, dot(neg, "e")), un(js_ast.UnOpPostInc, idx(neg, id("a"))))
+		for _, p := range pre {
+			if p != js_ast.UnOpPreDec && p != js_ast.UnOpPreInc {
+				out = append(out, un(p, neg), un(p, un(js_ast.UnOpNeg, neg)))
+			}
+		}
+	}
 	for _, p := range pre {
 		out = append(out, call(id("x"), un(p, id("a"))), nw(id("x"), un(p, id("a"))), un(p, dot(call(id("a")), "b")), un(p, dot(nw(id("a")), "b")))
 		if p != js_ast.UnOpPreDec && p != js_ast.UnOpPreInc {
